@@ -370,6 +370,8 @@ pub struct Model {
     pub exact_updates: bool,
     #[serde(skip)]
     pub inplace_dirty: bool,
+    #[serde(skip)]
+    pub stmt_garbage: Option<(usize, Vec<Vec<Val>>)>,
     /// checkpoints (flush / VACUUM / reopen) so far, and the value it had when each row got its delete mark
     pub ckpt_epoch: u32,
     /// transactions that had written when a checkpoint ran (crash checks only)
@@ -432,6 +434,7 @@ impl Model {
             enabled_hazards: enabled.clone(),
             exact_updates: false,
             inplace_dirty: false,
+            stmt_garbage: None,
             ckpt_epoch: 0,
             ckpt_writers: BTreeSet::new(),
             delete_epoch: BTreeMap::new(),
@@ -730,6 +733,11 @@ impl Model {
                     self.hazard(KF_UPDATE_IN_PLACE);
                 }
                 self.tables = backup.0;
+                if let Some((ti, rows)) = self.stmt_garbage.take() {
+                    for row in rows {
+                        self.tables[ti].rows.push(PhysRow { versions: vec![(t, row)], xmax: None });
+                    }
+                }
                 // hazards raised during a failing statement stay raised
                 let _ = (backup.1, backup.2);
                 Exp::Err(c)
@@ -794,6 +802,12 @@ impl Model {
                         if n > 0 && self.txs[t as usize].explicit {
                             // rows before the failing one: statement atomicity inside an open transaction
                             self.hazard(KF_PARTIAL_STATEMENT);
+                        }
+                        if n > 0 && !self.txs[t as usize].explicit {
+                            // an auto-commit statement that fails on a later row has already written the earlier ones;
+                            // its transaction is aborted, the rows (and their index entries) stay behind as garbage
+                            // of an aborted transaction until VACUUM - which the index findings care about
+                            self.stmt_garbage = Some((ti, rows[..n].to_vec()));
                         }
                         return Err(e);
                     }
